@@ -397,6 +397,26 @@ class SqlCon:
             if t is None:
                 raise PyRaise(sqlite3.OperationalError("no such table"))
             return Cursor(t["rows"])
+        m = re.fullmatch(r"SELECT (rowid|oid|_rowid_), \* FROM " + IDENT + r" WHERE \1 > \? ORDER BY \1 LIMIT \?", s, re.I)
+        if m:
+            # keyset paging: `rowid` is the implicit row number (1, 2, ... in insertion order, nothing is deleted in this model) UNLESS the table has a
+            # column of that name, which then is what the word refers to; NULL > x is not true; ORDER BY sorts by that value
+            t = self._tables().get(m.group(2).replace('""', '"'))
+            if t is None:
+                raise PyRaise(sqlite3.OperationalError("no such table"))
+            lo, lim = [self.it.unbase(p_) for p_ in params]
+            if not isinstance(lo, int) or not isinstance(lim, int):
+                raise Unsupported("keyset paging with symbolic bounds")
+            names_ = [c[0].lower() for c in t["cols"]]
+            if m.group(1).lower() in names_:
+                k_ = names_.index(m.group(1).lower())
+                keys = [self.it.unbase(r[k_]) for r in t["rows"]]
+                if any(not (v is None or isinstance(v, (int, float, str, bytes))) for v in keys):
+                    raise Unsupported("keyset paging over a user column holding symbolic values")
+            else:
+                keys = list(range(1, len(t["rows"]) + 1))
+            sel_ = sorted(((k, i) for i, k in enumerate(keys) if isinstance(k, (int, float)) and not isinstance(k, bool) and k > lo or isinstance(k, (str, bytes))), key=lambda x_: (isinstance(x_[0], (str, bytes)), x_[0] if not isinstance(x_[0], (str, bytes)) else 0, x_[1]))
+            return Cursor([(k,) + tuple(t["rows"][i]) for k, i in sel_[:lim if lim >= 0 else None]])
         raise Unsupported(f"SQL statement outside the model: {s[:80]!r}")
 
     def commit(self):
